@@ -8,7 +8,7 @@ from ..selftest import Mutant
 
 ID = "C34"
 TECHNIQUE = "writer/reader key-table extraction and comparison (K6) between import_commit / export_commit and the roundtrip metadata codec (ast)"
-FLOOR = 33
+FLOOR = 34
 MP = "breezy/git/mapping.py"
 RT = "breezy/git/roundtrip.py"
 EXPLANATION = """
@@ -22,7 +22,11 @@ literal is the same in inject_bzr_metadata and extract_bzr_metadata.
 Added while testing against seeded changes: Also: each commit field is restored from its own property key only; the
 decode helper retried with another encoding writes its outputs before reading them; encoding header values
 import_commit does not use as a codec ('false') are not used as a codec by export_commit.
-Does not decide: byte identity of the exported commit (values, encodings, timezones).
+identity-verbatim (K8): the backward slice of `commit.author = …` and `commit.committer = …` in export_commit is
+evaluated abstractly (the function ASTs are interpreted, nothing of the repository is executed) on well-formed
+`Name <email>` identities with commas, quotes and non-ASCII letters under three encodings: the exported bytes are the
+identity's own bytes.
+Does not decide: byte identity of the whole exported commit (timezones, message, extra headers), malformed identities.
 """
 READ_EXCEPTIONS = {"author": "read through rev.get_apparent_authors()"}
 
@@ -101,6 +105,64 @@ def run(ctx):
         n_fields += 1
         ctx.check("field-from-own-key", we, not foreign, f"`{norm(st.targets[0])}` is restored from {sorted(own) or 'the revision'} without depending on another property's presence", construct=norm(st)[:90], message=f"`{norm(st)[:80]}` is restored from {sorted(own)} only when {foreign} is present: import_commit records the two independently, so a commit that has one without the other exports with different bytes (another SHA-1)")
     ctx.require(n_fields >= 10, f"{we}: only {n_fields} commit field assignments found")
+    # ---- identities stored verbatim on import come back byte-identical (K8 table over a program slice) ---------
+    # import_commit stores commit.author / commit.committer decoded, export_commit re-encodes them.  The backward slice
+    # of `commit.author = …` / `commit.committer = …` in export_commit is evaluated abstractly (helpers of mapping.py
+    # included) on well-formed `Name <email>` identities — with commas, quotes and non-ASCII in the name — under the
+    # implicit and an explicit encoding: the result must be the identity's own bytes.
+    from ..absint import Interp, Obj, Raised, Unsupported
+
+    def _loads(node):
+        return {n.id for n in ast.walk(node) if isinstance(n, ast.Name) and isinstance(n.ctx, ast.Load)}
+
+    def _slice(target):
+        idx = [i for i, st in enumerate(fe.body) if isinstance(st, ast.Assign) and any(norm(t) == target for t in st.targets)]
+        ctx.require(len(idx) == 1, f"{we}: {len(idx)} top-level assignments to {target}")
+        keep, need = [fe.body[idx[0]]], _loads(fe.body[idx[0]].value)
+        for st in reversed(fe.body[: idx[0]]):
+            stores = {n.id for n in ast.walk(st) if isinstance(n, ast.Name) and isinstance(n.ctx, ast.Store)}
+            if isinstance(st, (ast.Assign, ast.If)) and stores & need:
+                keep.insert(0, st)
+                need |= _loads(st)
+        return keep
+
+    def _hook(interp, call, name, ev_args, env):
+        if name and name.endswith(".get_apparent_authors"):
+            return [env["rev"].get("_identity")]
+        if name and "." not in name and repo.has(MP, name):
+            f_ = repo.func(MP, name)
+            args, kw = ev_args()
+            ps = [a.arg for a in f_.args.args]
+            return interp.call(f_, {**dict(zip(ps, args)), **kw})
+        return NotImplemented
+
+    rev_param = [a.arg for a in fe.args.args if a.arg != "self"][0]
+    idents = ["A U Thor <a@example.com>", "Doe, John <j@example.com>", "Doe, John, Jr. <j@example.com>", 'J. R. "Bob" Dobbs <bob@example.com>', "Zo\xeb M\xfcller <z@example.com>"]
+    for target in ("commit.author", "commit.committer"):
+        sl = _slice(target)
+        bad, evaluable = [], True
+        n_rows = 0
+        try:
+            for props, enc in (({}, "utf-8"), ({"git-explicit-encoding": "iso-8859-1"}, "iso-8859-1"), ({"git-implicit-encoding": "latin1"}, "latin1")):
+                for ident in idents:
+                    rev = Obj("rev", properties=dict(props), committer=ident, _identity=ident)
+                    commit = Obj("commit")
+                    env = {rev_param: rev, "rev": rev, "commit": commit}
+                    it_ = Interp(call_hook=_hook)
+                    try:
+                        it_.block(sl, env)
+                        got = commit.get(target.split(".")[1])
+                    except Raised as r_:
+                        got = ("raises", r_.name)
+                    n_rows += 1
+                    if got != ident.encode(enc):
+                        bad.append((ident, enc, got))
+        except Unsupported as ex:
+            evaluable = False
+            ctx.info("identity-verbatim", we, f"slice of `{target}` not evaluable ({ex}); not decided on this run")
+        if evaluable:
+            ctx.fact(n_rows)
+            ctx.check("identity-verbatim", we, not bad, f"`{target}` reproduces a well-formed identity byte for byte ({n_rows} rows: {len(idents)} identities x 3 encodings; slice of {len(sl)} statements)", construct=str(bad[:2]), message=f"export_commit rewrites a well-formed identity: {bad[:2]} — a git commit whose author or committer has this form is exported with different bytes, hence another SHA-1")
     # ---- the decode helper is retried with another encoding: it must not keep results of the failed attempt ------
     inner = [n for n in ast.walk(fi) if isinstance(n, ast.FunctionDef) and n is not fi and any(isinstance(x, ast.Nonlocal) for x in n.body)]
     retried = [n for n in inner if any(isinstance(l_, ast.For) and any(isinstance(c, ast.Call) and norm(c.func) == n.name for c in ast.walk(l_)) for l_ in ast.walk(fi))]
@@ -171,6 +233,9 @@ def run(ctx):
 
 
 MUTANTS = [
+    Mutant("first author cut at any comma", MP, "        if \",\" in first_author and first_author.count(\">\") > 1:\n            first_author = first_author.split(\",\")[0]\n", "        if \",\" in first_author:\n            first_author = first_author.split(\",\")[0].strip()\n", expect="identity-verbatim"),
+    Mutant("committer always encoded as utf-8", MP, "        commit.committer = fix_person_identifier(rev.committer.encode(encoding))\n", "        commit.committer = fix_person_identifier(rev.committer.encode(\"utf-8\"))\n", expect="identity-verbatim"),
+    Mutant("neutral: authors list held in a local", MP, "        first_author = rev.get_apparent_authors()[0]\n", "        authors = rev.get_apparent_authors()\n        first_author = authors[0]\n", neutral=True),
     Mutant("author -0000 flag restored only with an author timezone", MP, "        commit._author_timezone_neg_utc = \"author-timezone-neg-utc\" in rev.properties\n        if \"author-timezone\" in rev.properties:\n            commit.author_timezone = int(rev.properties[\"author-timezone\"])\n", "        if \"author-timezone\" in rev.properties:\n            commit.author_timezone = int(rev.properties[\"author-timezone\"])\n            commit._author_timezone_neg_utc = \"author-timezone-neg-utc\" in rev.properties\n", expect="field-from-own-key"),
     Mutant("committer decoded only on the first attempt", MP, "            try:\n                committer = commit.committer.decode(encoding)\n", "            try:\n                if committer is None:\n                    committer = commit.committer.decode(encoding)\n", expect="retry-keeps-no-state"),
     Mutant("import writes a key export does not know", MP, "            properties[\"git-gpg-signature\"] = commit.gpgsig.decode(", "            properties[\"git-gpgsig\"] = commit.gpgsig.decode(", expect="prop-written-is-read"),
